@@ -221,6 +221,12 @@ ShutLate(rs, t) ==
          /\ t - (IF rs.tCloseFed > rs.tFinal THEN rs.tCloseFed ELSE rs.tFinal) > DiscBound(rs))
      \/ (Idle(rs) /\ rs.cfg.ka_ms > 0 /\ t - rs.tAct > rs.cfg.ka_ms + DiscBound(rs))
      \/ (HeadLate(rs, t) /\ t > rs.cfg.head_ms + DiscBound(rs))
+     \* the same two while the peer has stopped taking the server's bytes (an untaken 408; a half-closed client whose requests
+     \* have all been handled by handlers that do not wait): shutdown was entered, the disconnect timer ends it
+     \/ (HeadLate(rs, t) /\ rs.wpend /\ rs.rej.at = 0 /\ t > rs.cfg.head_ms + DiscBound(rs))
+     \/ (rs.eofFed /\ rs.wpend /\ rs.rej.at = 0 /\ rs.cfg.half_closed /\ rs.called = NReq(rs) /\ rs.called >= 1 /\ rs.fed >= rs.total
+         /\ (\A i \in 1..rs.called : IF "pend" \in DOMAIN rs.pf[i] THEN rs.pf[i].pend = 0 ELSE FALSE)
+         /\ t - (IF rs.tEof > rs.tAct THEN rs.tEof ELSE rs.tAct) > DiscBound(rs))
      \* the peer half-closed and nothing is in flight: the connection is shut down
      \/ (rs.eofFed /\ rs.called = rs.answered /\ rs.cur.k = 0 /\ rs.unlimited /\ rs.rej.at = 0
          /\ t - (IF rs.tEof > rs.tAns THEN rs.tEof ELSE rs.tAns) > DiscBound(rs))
